@@ -469,6 +469,32 @@ def null_field_list_cases(tier):
     return cases
 
 
+def hostile_with_keyword_cases(tier):
+    """A near-valid field / type name (a valid name with one hostile character before, after or inside it, or a
+    payload) next to Python-keyword field names: the keyword switches the class template to its setattr variant, in
+    which names are interpolated at other places than in the plain template - and next to a field that carries the
+    name the hostile one would collapse to if the hostile character were dropped."""
+    cases = []
+    hostile = []
+    for c in ALPHABET[4:]:
+        if c == "_" or c == "/":
+            continue
+        hostile += ["a" + c, c + "a", "a" + c + "b"]
+    hostile += [p_ for p_ in PAYLOADS[:22]]
+    fillers = [[("string", "class")], [("string", "from"), ("varint", "a")], [("varint", "a"), ("string", "import")],
+               [("varint", "a"), ("varint", "b"), ("string", "lambda")]]
+    for h in hostile:
+        for fl in fillers:
+            for pos in range(len(fl) + 1):
+                fields = list(fl)
+                fields.insert(pos, ("string", h))
+                for ch in ("constructor", "stream"):
+                    cases.append({"name": "t/ok", "fields": fields, "channel": ch, "role": "hostile-with-keyword"})
+            for ch in ("constructor", "stream", "json"):
+                cases.append({"name": h, "fields": list(fl), "channel": ch, "role": "hostile-name-with-keyword"})
+    return cases
+
+
 def exhaustive_cases(tier):
     cases = []
     for role in ("type-name", "field-name", "field-type"):
@@ -559,5 +585,6 @@ def parts(tier):
         Part("template-identifiers", check_definition, cases=template_name_cases, exhaustive=True),
         Part("reserved-field-positions", check_definition, cases=reserved_position_cases, exhaustive=True),
         Part("null-field-list", check_definition, cases=null_field_list_cases, exhaustive=True),
+        Part("hostile-with-keyword-fields", check_definition, cases=hostile_with_keyword_cases, exhaustive=True),
         Part("generated", check_definition, strategy=generated_case(), examples=(250, 20000)),
     ]
